@@ -116,7 +116,7 @@ def run(chk):
                             values.append((s.name, v))
                 outs = []
                 for name, v in values:
-                    ans = drv.ask(f"E {name} {cxx_run.to_json(v)}")
+                    ans = drv.ask_or_crash(f"E {name} {cxx_run.to_json(v)}")
                     b = list(bytes.fromhex(ans[3:])) if ans.startswith("OK ") else None
                     outs.append(b)
                     canonical = list(ref_wire.wire_bytes(fcp, name, v))
@@ -126,8 +126,11 @@ def run(chk):
                     if b != canonical:
                         fails.append({"kind": "c++-encode-not-canonical", "schema": text, "struct": name, "value": v, "encoded": b,
                                       "canonical": canonical, "answer": ans[:200]})
-                    ans2 = drv.ask(f"D {name} {bytes(canonical).hex()}")
-                    d = json.loads(ans2[3:]) if ans2.startswith("OK ") else None
+                    ans2 = drv.ask_or_crash(f"D {name} {bytes(canonical).hex()}")
+                    try:
+                        d = json.loads(ans2[3:]) if ans2.startswith("OK ") else None
+                    except ValueError:           # the decoder returned something the JSON printer could not render as JSON
+                        d = None
                     try:
                         dterm = "None" if d is None else f"(Some {to_coq.struct_value(fcp, name, coerce(fcp, StructType(name), d))})"
                     except (TypeError, KeyError):
@@ -170,6 +173,14 @@ def run(chk):
 
 
 def coerce(fcp, t, v):
+    """Total version: a decoded document of the wrong shape is handed on as it is (and then compares unequal)."""
+    try:
+        return _coerce(fcp, t, v)
+    except Exception:
+        return v
+
+
+def _coerce(fcp, t, v):
     """JSON -> the Python value shape of the codec (floats that JSON printed as integers, etc.)."""
     from fcp.specs import type as T
     if type(t) in (T.FloatType, T.DoubleType):
